@@ -219,7 +219,17 @@ func OracleC11(tr *Trace) Verdict {
 				if c.ToSeq < 0 || c.ToT > end.T {
 					v.Viols = append(v.Viols, Viol{At: end.T, Sig: "C11 reconnect-verification-kept-invalid-leader",
 						Msg: fmt.Sprintf("%s: reconnect at %v; during the verification [%v, %v] no live record carried its id and token %.8s, yet it still reports leadership after the verification", who, n.T, vStart, end.T, c.Token)})
-				} else if !demoteBy(obj, c.FromSeq, end.T) {
+				} else if by := func() time.Duration {
+					// a stop call that began before the verification ended owns the end of the term: it invokes
+					// OnDemote itself, at the end of its own work
+					by := end.T
+					for _, st := range ci.stops[obj] {
+						if st.CallT <= end.T && st.RetSeq >= 0 && st.RetT >= c.ToT && st.RetT+p.Instances[inst].DemoteDur+time.Millisecond > by {
+							by = st.RetT + p.Instances[inst].DemoteDur + time.Millisecond
+						}
+					}
+					return by
+				}(); !demoteBy(obj, c.FromSeq, by) {
 					v.Viols = append(v.Viols, Viol{At: end.T, Sig: "C11 reconnect-verification-failure-without-ondemote",
 						Msg: fmt.Sprintf("%s: leadership ended at %v after a failed reconnect verification but OnDemote was not invoked by %v", who, c.ToT, end.T)})
 				}
